@@ -251,7 +251,7 @@ def validate_shard(args):
     module, cfg, shard, declfile, extra_env = args
     env = {"TRACEFILE": shard, "DECLFILE": declfile}
     env.update(extra_env or {})
-    r = tlc(module, cfg, env=env, workers=1, timeout=1200)
+    r = tlc(module, cfg, env=env, workers=1, timeout=1200, heap="1500m")
     res = {"shard": shard, "generated": r["generated"], "wall": r["wall"], "status": "accepted", "detail": ""}
     if r["rc"] == 0 and "Model checking completed. No error has been found." in r["out"]:
         return res
